@@ -75,5 +75,27 @@ func extractConnUpdates(t *T) (string, error) {
 		})
 	}
 	def("mailbox_updates_before_flag_updates", v, "applyMessageMailboxesUpdated: `return append(stateUpdates, flagUpdates...), nil`")
+	// applyMailboxCreated hands the three sets of the update to CreateMailbox, each in its place
+	v = ""
+	if fd := FuncDecl(f, "user", "applyMailboxCreated"); fd != nil {
+		ast.Inspect(fd.Body, func(n ast.Node) bool {
+			c, ok := n.(*ast.CallExpr)
+			if !ok {
+				return true
+			}
+			sel, ok := c.Fun.(*ast.SelectorExpr)
+			if !ok || sel.Sel.Name != "CreateMailbox" || len(c.Args) != 7 {
+				return true
+			}
+			v = "true"
+			for i, want := range []string{"Flags", "PermanentFlags", "Attributes"} {
+				if strings.Join(strings.Fields(t.Src("internal/backend/connector_updates.go", c.Args[3+i])), "") != "update.Mailbox."+want {
+					v = "false"
+				}
+			}
+			return false
+		})
+	}
+	def("mailbox_created_passes_three_sets", v, "applyMailboxCreated: tx.CreateMailbox(ctx, id, name, update.Mailbox.Flags, update.Mailbox.PermanentFlags, update.Mailbox.Attributes, uidValidity)")
 	return sb.String(), nil
 }
